@@ -57,6 +57,12 @@ fn sequential(ctx: &Ctx, p: &Proto, b: Backend, writer: Side) {
             ops.push(Op::SRead { side: reader, nonce: n, msg: Msg::Last(writer), cap: Cap::Roomy });
         }
     }
+    // the largest payloads (and their neighbours) are payloads too - read into roomy and into exactly sized buffers
+    for (j, plen) in [65519usize, 65518, 65504, 65503].into_iter().enumerate() {
+        let n = [2u64, 1 << 35, u64::MAX - 1, 0][j];
+        ops.push(Op::SWrite { side: writer, nonce: n, plen, cap: Cap::Roomy });
+        ops.push(Op::SRead { side: reader, nonce: n, msg: Msg::Last(writer), cap: if j % 2 == 0 { Cap::Roomy } else { Cap::NeedPlus(0) } });
+    }
     let e = Exec::run(&cfg, &ops);
     ctx.add(&ctx.evaluations, e.steps.len() as u64);
     ctx.add(&ctx.transitions, e.steps.len() as u64);
@@ -265,7 +271,7 @@ use conc::{explore_mix, mixes, stress_mix};
 pub fn run(tier: Tier) -> i32 {
     let ctx = Ctx::new("C16", tier, "model_checking");
     let quick = ctx.quick();
-    ctx.set_rule("sequential: for every cipher x backend x writer role: read(n, write(n, p)) == p for an 80-value nonce alphabet x payload sizes {0,1,64,1000}, read twice; all 120 orders of five calls x 3 repetitions give identical bytes; stateless message under n == n-th stateful message for n in 0..=8, and == the stateful message after verif_set_sending_nonce(n) for 8 large nonces, and for the 65519-byte payload. concurrent: shuttle DFS over every interleaving of the pre-cipher/cipher/post-cipher segments of 2 threads x 2 calls and 3 threads x 1 call on a shared StatelessTransportState (7 call mixes, one of them reading into exactly payload-sized buffers, x ciphers x backends), every call's result compared with the sequential function; states = schedules explored");
+    ctx.set_rule("sequential: for every cipher x backend x writer role: read(n, write(n, p)) == p for an 80-value nonce alphabet x payload sizes {0,1,64,1000}, read twice, and the payload sizes 65503/65504/65518/65519; all 120 orders of five calls x 3 repetitions give identical bytes; stateless message under n == n-th stateful message for n in 0..=8, and == the stateful message after verif_set_sending_nonce(n) for 8 large nonces, and for the 65519-byte payload. concurrent: shuttle DFS over every interleaving of the pre-cipher/cipher/post-cipher segments of 2 threads x 2 calls and 3 threads x 1 call on a shared StatelessTransportState (7 call mixes, one of them reading into exactly payload-sized buffers, x ciphers x backends), every call's result compared with the sequential function; states = schedules explored");
     // sequential
     let mut seq_jobs = vec![];
     for (c, b) in cipher_backends() {
